@@ -23,6 +23,12 @@ ID_CLASSES = ['ascii', 'one', 'long', 'punct', 'space', 'slash', 'numeric',
 VALUE_CLASSES = ['count', 'bigcount', 'dyadic', 'frac', 'neg', 'tiny',
                  'manydigits', 'huge', 'subnormal', 'const', 'mixed']
 
+# text that reads like a null / boolean / number / empty container: header
+# fields and metadata values holding it are still text
+NULLISH = ['None', 'null', 'none', 'NULL', 'nan', 'NaN', 'true', 'false',
+           'True', 'False', '0', '1', '-1', '0.0', '[]', '{}', '""', 'inf',
+           'No Table ID', 'undefined', 'NA', 'N/A', ' ']
+
 _PUNCT = list('[]{}"\'\\,;:|#()<>=+-*&^%$@!~`?._')
 _LATIN = list('éèüñøßÆçÀ')
 _CJK = list('日本語微生物汉字한글')
@@ -180,7 +186,7 @@ MD_KINDS = ['none', 'text', 'int', 'float', 'bool', 'taxonomy', 'multi',
             'mixednum']
 _TEXTS = ['a', 'soil', 'gut microbiome', 'x/y', 'é', '日本', 'k__Bacteria',
           'p__[Thermi]', 'A;B', 'tab-free', "it's", 'q"uote', '', '0', '1.5',
-          'None', 'nan', 'true']
+          'None', 'nan', 'true', 'null', 'False', '[]', 'NA']
 _TAXA = ['k__Bacteria', 'p__Firmicutes', 'c__Bacilli', 'o__Lactobacillales',
          'f__é', 'g__日本', 's__x y', 'p__[Thermi]', 'a/b', 'x,y',
          'p__Protéobactéries_éééé', 's__日本語の分類群の長い名前です']
